@@ -654,6 +654,10 @@ func (p *G1Affine) setBytes(buf []byte, subGroupCheck bool) (int, error) {
 	} else {
 		// Y "<=" -Y
 		if mData == mCompressedLargest {
+			if Y.IsZero() {
+				// Y = -Y = 0 is encoded with the "smallest" flag only
+				return 0, errors.New("invalid compressed coordinate: largest flag set with Y = 0")
+			}
 			Y.Neg(&Y)
 		}
 	}
@@ -695,6 +699,10 @@ func (p *G1Affine) unsafeComputeY(subGroupCheck bool) error {
 	} else {
 		// Y "<=" -Y
 		if mData == mCompressedLargest {
+			if Y.IsZero() {
+				// Y = -Y = 0 is encoded with the "smallest" flag only
+				return errors.New("invalid compressed coordinate: largest flag set with Y = 0")
+			}
 			Y.Neg(&Y)
 		}
 	}
